@@ -1993,6 +1993,8 @@ pub fn tasks(prop: &str, tier: Tier) -> Vec<Task> {
             for x in t.iter_mut() {
                 if x.scn.name.starts_with("c16-two-retirers-at-threshold") || x.scn.name.starts_with("c16-leaver-vs-full-cycle") {
                     x.scn.growth_probe = true;
+                    // the probe makes every execution ten times as long
+                    x.c = x.c.min(2);
                 }
             }
             push_matrix(&mut t, thorough);
